@@ -23,15 +23,21 @@ import (
 var vErrInjected = errors.New("injected fault")
 
 type vWorld struct {
-	st       *vStore
-	usage    map[string]int // node -> recorded usage (resource manager)
-	capacity map[string]int // node -> recorded capacity (resource manager)
-	applied  map[string]int // container id -> amount the engine applied
-	running  map[string]bool
-	calls    int
-	faultAt  int
-	site     string // where the fault fired
-	sites    []string
+	st         *vStore
+	usage      map[string]int // node -> recorded usage (resource manager)
+	capacity   map[string]int // node -> recorded capacity (resource manager)
+	slots      map[string]int // node -> instances the resource manager reports as deployable
+	processing map[string]int // node -> in-progress marker
+	created    int
+	allocsOK   int            // successful rmgr.Alloc calls so far
+	createSeen bool           // an engine.VirtualizationCreate was attempted
+	leakRegion bool           // the fault fired after an Alloc succeeded and before any create attempt
+	applied    map[string]int // container id -> amount the engine applied
+	running    map[string]bool
+	calls      int
+	faultAt    int
+	site       string // where the fault fired
+	sites      []string
 }
 
 // fault reports whether the current fallible call is the one that fails.
@@ -40,6 +46,7 @@ func (w *vWorld) fault(site string) bool {
 	w.sites = append(w.sites, site)
 	if w.calls == w.faultAt {
 		w.site = site
+		w.leakRegion = w.allocsOK > 0 && !w.createSeen
 		return true
 	}
 	return false
@@ -109,6 +116,7 @@ func (m *vRmgr) Alloc(_ context.Context, node string, count int, opts resourcety
 	if m.w.fault("rmgr.Alloc") {
 		return nil, nil, vErrInjected
 	}
+	m.w.allocsOK++
 	var rs, es []resourcetypes.Resources
 	for i := 0; i < count; i++ {
 		rs = append(rs, vRes(vAmount(opts)))
